@@ -40,9 +40,10 @@ func (c *cctx) done() {
 }
 
 type poolEntry struct {
-	name string
-	huge bool // iterating / materialising it is unbounded work: excluded from the arity>=2 product
-	mk   func(c *cctx) starlark.Value
+	name   string
+	huge   bool // iterating / materialising it is unbounded work: excluded from the arity>=2 product
+	noprod bool // excluded from the arity>=2 product for another reason (printing it crashes: known finding)
+	mk     func(c *cctx) starlark.Value
 }
 
 const preludeSrc = `
@@ -137,7 +138,11 @@ func buildPool() []poolEntry {
 		f(`{"a": 1, "b": 2}`, func(*cctx) starlark.Value {
 			return mkDict(starlark.String("a"), starlark.MakeInt(1), starlark.String("b"), starlark.MakeInt(2))
 		}),
-		f("frozen {1: 2}", func(*cctx) starlark.Value { d := mkDict(starlark.MakeInt(1), starlark.MakeInt(2)); d.Freeze(); return d }),
+		f("frozen {1: 2}", func(*cctx) starlark.Value {
+			d := mkDict(starlark.MakeInt(1), starlark.MakeInt(2))
+			d.Freeze()
+			return d
+		}),
 		f("iterating {1: 2}", func(c *cctx) starlark.Value { return iterating(c, mkDict(starlark.MakeInt(1), starlark.MakeInt(2))) }),
 		f("d={\"d\": d}", func(*cctx) starlark.Value { d := starlark.NewDict(1); d.SetKey(starlark.String("d"), d); return d }),
 		f("set()", func(*cctx) starlark.Value { return starlark.NewSet(0) }),
@@ -148,7 +153,7 @@ func buildPool() []poolEntry {
 			return mustCall(c, "range", starlark.MakeInt(5), starlark.MakeInt(-5), starlark.MakeInt(-2))
 		}),
 		f("struct(a=1)", func(*cctx) starlark.Value { return structOf("a", starlark.MakeInt(1)) }),
-		{name: "l=[struct(x=l)]", huge: true, mk: func(*cctx) starlark.Value { // a struct inside a list inside itself (printing it never ends: known finding; kept out of the arity>=2 product)
+		{name: "l=[struct(x=l)]", noprod: true, mk: func(*cctx) starlark.Value { // a struct inside a list inside itself (printing it never ends: known finding; kept out of the arity>=2 product)
 			l := starlark.NewList(nil)
 			l.Append(structOf("x", l))
 			return l
@@ -221,7 +226,11 @@ func buildCallables() []callable {
 			return mkDict(starlark.String("a"), starlark.MakeInt(1), starlark.MakeInt(2), starlark.MakeInt(3))
 		}},
 		{"dict", "{}", false, func(*cctx) starlark.Value { return starlark.NewDict(0) }},
-		{"dict", "frozen", false, func(*cctx) starlark.Value { d := mkDict(starlark.MakeInt(1), starlark.MakeInt(2)); d.Freeze(); return d }},
+		{"dict", "frozen", false, func(*cctx) starlark.Value {
+			d := mkDict(starlark.MakeInt(1), starlark.MakeInt(2))
+			d.Freeze()
+			return d
+		}},
 		{"dict", "iterating", false, func(c *cctx) starlark.Value { return iterating(c, mkDict(starlark.MakeInt(1), starlark.MakeInt(2))) }},
 		{"dict", "d={1: d}", false, func(*cctx) starlark.Value { d := starlark.NewDict(1); d.SetKey(starlark.MakeInt(1), d); return d }},
 		{"set", "set([1, 2])", true, func(*cctx) starlark.Value { return mkSet(ints(1, 2)...) }},
@@ -292,13 +301,13 @@ type callMode struct {
 func newCallMode(o *opts) *callMode {
 	m := &callMode{o: o, pool: buildPool(), cs: buildCallables()}
 	for i, p := range m.pool {
-		if !p.huge {
+		if !p.huge && !p.noprod {
 			m.small = append(m.small, i)
 		}
 	}
 	for i, p := range m.pool {
 		switch p.name {
-		case "None", "1<<62", "-(1<<63)", "-1", `""`, `"a b"`, "nan", "[]", "l=[l]", "1<<100", "f1", "{}":
+		case "None", "1<<62", "-(1<<63)", `""`, `"a b"`, "nan", "l=[l]", "f1":
 			m.edge = append(m.edge, i)
 		}
 	}
@@ -316,9 +325,9 @@ func newCallMode(o *opts) *callMode {
 		m.nE = 0 // covered by the full arity-2 product
 		m.nB2 = C * Q * Q
 		m.nB3 = int64(len(m.prim)) * Q * Q * Q
-		m.nS = 300000
+		m.nS = 80000
 	} else {
-		m.nS = 30000
+		m.nS = 8000
 	}
 	if o.n > 0 {
 		m.nS = o.n
@@ -518,7 +527,7 @@ func (m *callMode) Key(i int64, kind, detail string) string {
 
 func (m *callMode) Timeout(i int64) time.Duration {
 	if m.isHuge(m.decode(i)) {
-		return 2500 * time.Millisecond
+		return 1500 * time.Millisecond
 	}
 	return 0
 }
